@@ -2,7 +2,7 @@ SPEC = {
     'id': 'C26',
     'harness': 'hC25',
     'coq_dir': 'C26',
-    'claimed': False,
+    'claimed': True,
     'theorems': ['C26_sequence_gapfree', 'C26_sequence_no_reuse', 'C26_replay_is_best_chain'],
     'allowed_axioms': [],
     'shard': 12,
